@@ -165,6 +165,7 @@ def build(sp, meta=True, as_list=False):
         if hist:
             try:
                 (a + a.ix[::-1]) if a.ndim else None
+                a.mean(axis=0), a.sum(), a.max(axis=-1), a.cumsum(axis=0), a.T       # (whatever these bind or cache on the instance)
                 for ax in a.axes:
                     ax.is_monotonic()
                     a.take({ax.name: [ax.values[-1], ax.values[0]]})
